@@ -213,3 +213,65 @@ def norm_sum_rule(chk, cid, prog, cfgname):
                             '`%s` does not add the modulus %s(element): the estimator then measures a different norm (|re|+|im| over-estimates the '
                             '1-norm by up to sqrt(2)), and RCOND drops below the true value' % (pretty(a)[:70], mag), cfgname=cfgname)
     return n
+
+
+NONNEG_CALLS = {'fabs', 'fabsf', 'dasum_', 'sasum_', 'dzsum1_slu', 'scsum1_slu', 'dzsum1_', 'scsum1_', 'z_abs', 'c_abs', 'z_abs1', 'c_abs1', 'dzasum_', 'scasum_'}
+
+
+def estimate_nonnegative_rule(chk, cid, prog, p, cfgname):
+    """?lacon2 returns an estimate of a norm in *est; ?gscon turns it into RCOND and ?gsrfs into FERR, which are documented non-negative.  Every
+    value stored into *est must be non-negative by construction: a magnitude or a sum of magnitudes (fabs, ?asum, ?sum1, ?_abs), possibly scaled
+    by counts and positive constants, or a local that only ever receives such values.  The n = 1 shortcut `*est = v[0]` takes the sign of
+    the single entry of inv(A)."""
+    from ..run import AnalysisBroken
+    f = prog.func(p + 'lacon2_')
+    if f is None:
+        raise AnalysisBroken('%slacon2_ not found' % p)
+    chk.saw(unit=f.unit, func=f.unit + ':' + f.name)
+    est = {nm: i for (nm, i, t) in f.params}.get('est')
+    if est is None:
+        raise AnalysisBroken('%s: parameter est not found' % f.name)
+    defs = {}
+    for x in f.body.walk():
+        if x.k == 'Assign' and x.a['op'] == '=' and strip(x.c[0]).k == 'Ref':
+            defs.setdefault(strip(x.c[0]).a.get('id'), []).append(x.c[1])
+
+    def nonneg(e, depth=0):
+        e = strip(e)
+        if e.k in ('Int', 'Float'):
+            try:
+                return float(e.a.get('value')) >= 0
+            except (TypeError, ValueError):
+                return False
+        if e.k == 'Cast':
+            return nonneg(e.c[0], depth)
+        if e.k == 'Call':
+            return callee_name(e) in NONNEG_CALLS
+        if e.k == 'Unary' and e.a['op'] == '*':       # *n, *est
+            inner = strip(e.c[0])
+            if inner.k == 'Ref' and inner.a.get('id') == est:
+                return True         # its own previous value: decided at the stores
+            return inner.k == 'Ref' and inner.a.get('name') in ('n',)
+        if e.k == 'Binary' and e.a['op'] in ('*', '/', '+'):
+            return nonneg(e.c[0], depth) and nonneg(e.c[1], depth)
+        if e.k == 'Cond':
+            return nonneg(e.c[1], depth) and nonneg(e.c[2], depth)
+        if e.k == 'Ref' and e.a.get('dk') == 'VarDecl' and depth < 3:
+            ds = defs.get(e.a.get('id'), [])
+            return bool(ds) and all(nonneg(d, depth + 1) for d in ds)
+        return False
+    n = 0
+    for x in f.body.walk():
+        if x.k == 'Assign' and x.a['op'] == '=' and strip(x.c[0]).k == 'Unary' and strip(x.c[0]).a['op'] == '*' and strip(strip(x.c[0]).c[0]).k == 'Ref' \
+                and strip(strip(x.c[0]).c[0]).a.get('id') == est:
+            n += 1
+            inst = '%s:estimate-is-a-magnitude@%d' % (f.name, n)
+            if nonneg(x.c[1]):
+                chk.ok(cid, inst, sample=pretty(x)[:60])
+            else:
+                chk.violate(cid, inst, loc(f, x), f.name,
+                            '`%s` stores a value that is not a magnitude by construction: the estimate (and with it FERR / RCOND) takes the sign of an entry of '
+                            'inv(A)' % pretty(x)[:60], cfgname=cfgname)
+    if n < 3:
+        raise AnalysisBroken('%s: %d stores to *est found, expected >= 3' % (f.name, n))
+    return n
